@@ -27,7 +27,7 @@ func init() {
 		Assumptions: []string{"run spans far less than the 6 h tombstone expiry of the durable backend", "payload bytes (event values) are not compared, only times and activity"},
 	})
 	kernel.Register(&kernel.World{
-		Property: "C13", Bubble: true, Run: func(c *kernel.Ctx) { runC13(c) }, RunsPerProc: 1500,
+		Property: "C13", Bubble: true, Run: func(c *kernel.Ctx) { runC13(c) }, RunsPerProc: 60,
 		Rule: "two campaigns chosen by the tape. (1) the C04 world, where for EVERY merge the returned delta is compared with the difference computed independently from the receiver's entries before and the payload: exactly the keys whose add or remove time advanced, only the advanced times, nil iff nothing advanced. (2) real cluster.Swarm instances on the simulated mesh: Notify calls, relays and periodic gossip are queued on one or several link senders while the senders are stalled; when a sender runs, the bytes it emits are decoded and must carry, per key, the maximum add and remove time over every payload that was queued on that link, also when the same payload object sits on several links; non-trivial = a merge with a non-empty delta / a send that coalesced >= 2 payloads; distinct = distinct canonical logs",
 		Real:  []string{"event.State.Merge", "crdt.Volatile.Merge", "crdt.Durable.Merge", "cluster.Swarm (Notify, Gossip, OnGossip, OnGossipBroadcast, merge)"},
 		Stub:  []string{"weaveworks/mesh (simmesh: sender slots transcribed from gossip.go: pending = pending.Merge(new))", "replica clocks (crdt.Now seam)"},
